@@ -30,8 +30,11 @@ func init() { Registry["C19"] = checkC19 }
 
 type builder struct {
 	fn       *ssa.Function
-	newReq   *ssa.Call
-	req      ssa.Value // *http.Request value
+	newReq   *ssa.Call     // the http.NewRequest* call, or the call of a request factory (see urlSite / factory)
+	factory  *ssa.Function // non-nil: the library function that created the request for this builder
+	facReq   ssa.Value     // the request value inside the factory
+	facNew   *ssa.Call     // the http.NewRequest* call inside the factory
+	req      ssa.Value     // *http.Request value
 	dispatch []*ssa.Call
 	recv     *types.Named
 }
@@ -67,6 +70,71 @@ func checkC19(c *Ctx) {
 		c.R.Break("no function invokes a HTTPBeforeRequestFunc value: the hook is never applied")
 		return
 	}
+	// wrappers: a function that hands its *http.Request parameter to an applier on every path, except where a member it
+	// needs for that (the owning client) is nil, applies the hook just as well
+	for iter := 0; iter < 3; iter++ {
+		for _, fn := range c.P.LibFns {
+			if appliers[fn] {
+				continue
+			}
+			var reqParam *ssa.Parameter
+			for _, p := range fn.Params {
+				if isHTTPRequestPtr(p.Type()) {
+					reqParam = p
+				}
+			}
+			if reqParam == nil {
+				continue
+			}
+			var calls []ssa.Instruction
+			ir.EachInstr(fn, func(_ *ssa.BasicBlock, _ int, in ssa.Instruction) {
+				call, ok := in.(*ssa.Call)
+				if !ok {
+					return
+				}
+				if sc := ir.StaticCallee(call); sc != nil && appliers[sc] {
+					for _, a := range call.Call.Args {
+						if a == ssa.Value(reqParam) {
+							calls = append(calls, in)
+						}
+					}
+				}
+			})
+			if len(calls) == 0 {
+				continue
+			}
+			okAll := true
+			ir.EachInstr(fn, func(blk *ssa.BasicBlock, _ int, in ssa.Instruction) {
+				r, ok := in.(*ssa.Return)
+				if !ok || blk == fn.Recover {
+					return
+				}
+				passes := false
+				for _, cl := range calls {
+					if flow.Dominates(cl, r) {
+						passes = true
+					}
+				}
+				if passes {
+					return
+				}
+				nilEdge := false
+				for _, g := range flow.Guards(fn, blk) {
+					if v, _, ok := nilCompare(g.If.Cond); ok {
+						if _, _, isField := ir.LoadedField(v); isField {
+							nilEdge = true
+						}
+					}
+				}
+				if !nilEdge {
+					okAll = false
+				}
+			})
+			if okAll {
+				appliers[fn] = true
+			}
+		}
+	}
 
 	var builders []*builder
 	for _, fn := range c.P.LibFns {
@@ -96,6 +164,52 @@ func checkC19(c *Ctx) {
 			builders = append(builders, b)
 		})
 	}
+	// request factories: a function that creates the request and returns it (without dispatching it) is not a builder
+	// itself; every library call of it is — the caller adds the headers, runs the hook and dispatches
+	var real []*builder
+	for _, b := range builders {
+		idx := -1
+		if b.req != nil {
+			ir.EachInstr(b.fn, func(blk *ssa.BasicBlock, _ int, in ssa.Instruction) {
+				if r, ok := in.(*ssa.Return); ok && blk != b.fn.Recover {
+					for i, rv := range ir.Results(r) {
+						if derivedReq(b.req)[rv] {
+							idx = i
+						}
+					}
+				}
+			})
+		}
+		if idx < 0 {
+			real = append(real, b)
+			continue
+		}
+		for _, e := range ir.Callers(c.G, b.fn) {
+			call, ok := e.Site.(*ssa.Call)
+			if !ok || !c.P.IsLib(e.Caller.Func) {
+				continue
+			}
+			nb := &builder{fn: e.Caller.Func, newReq: call, factory: b.fn, facReq: b.req, facNew: b.newReq}
+			if call.Call.Signature().Results().Len() == 1 {
+				nb.req = call
+			} else {
+				for _, r := range *call.Referrers() {
+					if ex, ok := r.(*ssa.Extract); ok && ex.Index == idx {
+						nb.req = ex
+					}
+				}
+			}
+			if recv := nb.fn.Signature.Recv(); recv != nil {
+				t := recv.Type()
+				if pt, ok := t.(*types.Pointer); ok {
+					t = pt.Elem()
+				}
+				nb.recv, _ = t.(*types.Named)
+			}
+			real = append(real, nb)
+		}
+	}
+	builders = real
 	sort.Slice(builders, func(i, j int) bool { return builders[i].fn.String() < builders[j].fn.String() })
 	if len(builders) < 9 {
 		c.R.Break("found %d HTTP request builders, expected at least 9", len(builders))
@@ -775,7 +889,12 @@ func pathToDispatchAvoiding(fn *ssa.Function, from ssa.Instruction, isHook, isDi
 }
 
 // appliesPath: the builder stores a value loaded from a string field of its receiver into req.URL.Path.
-func appliesPath(c *Ctx, b *builder) bool { return appliesPathIn(c, b.fn, b.req, 0) }
+func appliesPath(c *Ctx, b *builder) bool {
+	if b.factory != nil && appliesPathIn(c, b.factory, b.facReq, 0) {
+		return true
+	}
+	return appliesPathIn(c, b.fn, b.req, 0)
+}
 
 // appliesPathIn: fn stores a configured (field-loaded) path into req.URL.Path, itself or through a helper given req.
 func appliesPathIn(c *Ctx, fn *ssa.Function, req ssa.Value, depth int) bool {
@@ -910,9 +1029,13 @@ func c19URLVerbatim(c *Ctx, builders []*builder) {
 	}
 	n := 0
 	for _, b := range builders {
-		args := b.newReq.Call.Args
+		site, siteFn := b.newReq, b.fn
+		if b.factory != nil {
+			site, siteFn = b.facNew, b.factory
+		}
+		args := site.Call.Args
 		var urlArg ssa.Value
-		switch ir.CallName(b.newReq) {
+		switch ir.CallName(site) {
 		case "net/http.NewRequestWithContext":
 			if len(args) >= 3 {
 				urlArg = args[2]
@@ -926,7 +1049,7 @@ func c19URLVerbatim(c *Ctx, builders []*builder) {
 			continue
 		}
 		n++
-		why := judge(b.fn, urlArg, 0)
+		why := judge(siteFn, urlArg, 0)
 		c.R.Check(why == "", "R-url-verbatim", "address of the request built by "+fname(b.fn), c.Pos(b.newReq.Pos()), "the configured URL rendered verbatim",
 			sprintf("%s does not send its request to the configured URL as it was given: %s — components it does not copy (the query string) are lost on every request", fname(b.fn), why))
 	}
